@@ -248,7 +248,7 @@ MilliIn(x, s) == /\ s.lo[1] * 1000 <= (x + 2) * s.lo[2]
 
 \* does reported value record x agree with score s of metric m
 ValueMatches(m, x, s) ==
-    IF m = "ASSD" THEN IsMilliV(x) /\ MilliIn(x.v, s)
+    IF m = "ASSD" THEN IsMilliV(x) /\ MilliIn(x.v[1], s)
     ELSE IsRatV(x) /\ Norm(x.v) = Norm(s.lo)
 
 \* bag matching of reported values against expected scores: exact metrics by bag
@@ -267,11 +267,12 @@ ListMatches(m, xs, scs) ==      \* xs: sequence of value records; scs: sequence 
     /\ Len(xs) = Len(scs)
     /\ IF m = "ASSD"
        THEN /\ \A i \in 1..Len(xs) : IsMilliV(xs[i])
-            /\ EdfMatch({<<i, xs[i].v>> : i \in 1..Len(xs)}, {<<i, scs[i]>> : i \in 1..Len(scs)})
+            /\ EdfMatch({<<i, xs[i].v[1]>> : i \in 1..Len(xs)}, {<<i, scs[i]>> : i \in 1..Len(scs)})
        ELSE /\ \A i \in 1..Len(xs) : IsRatV(xs[i])
             /\ SameBag([i \in 1..Len(xs) |-> Norm(xs[i].v)], [i \in 1..Len(scs) |-> Norm(scs[i].lo)])
 
-SetToSeq(S) == CHOOSE f \in [1..Cardinality(S) -> S] : \A i, j \in 1..Cardinality(S) : f[i] = f[j] => i = j
+RECURSIVE SetToSeq(_)
+SetToSeq(S) == IF S = {} THEN <<>> ELSE LET x == CHOOSE y \in S : TRUE IN <<x>> \o SetToSeq(S \ {x})
 
 ScoresOf(m, shape, pairSeq) == [i \in 1..Len(pairSeq) |-> Score(m, shape, pairSeq[i].R, pairSeq[i].P)]
 
@@ -293,7 +294,7 @@ Product(a, b) ==
 \* global binary metric m on the two foregrounds, under handler h
 GlobalOK(m, shape, h, fgP, fgR, x) ==
     LET sc == GlobalScenario(fgP = {}, fgR = {}) IN
-    IF sc # "NOT_EDGE" THEN x = Prescribed(h, m, sc)
+    IF sc # "NOT_EDGE" THEN SameValue(x, Prescribed(h, m, sc))
     ELSE ValueMatches(m, x, Score(m, shape, fgR, fgP))
 
 (***************************************************************************)
@@ -312,20 +313,20 @@ RqOK(res, nP, nR, surv)      == res.rq = RQ(Cardinality(surv), nP, nR)
 SqOK(res, im, shape, h, nP, nR, surv) ==
     LET tp == Cardinality(surv)  ps == SetToSeq(surv) IN
     \A m \in im :
-        IF tp = 0 THEN res.sq[m] = Prescribed(h, m, Scenario(nP, nR))
+        IF tp = 0 THEN SameValue(res.sq[m], Prescribed(h, m, Scenario(nP, nR)))
         ELSE IF res.sq[m].k = "skip" THEN TRUE
         ELSE IF m = "ASSD"
              THEN LET ss == ScoresOf(m, shape, ps)
                       lo == SumInts([i \in 1..tp |-> ss[i].lo[1]])      \* all over 1000
                       hi == SumInts([i \in 1..tp |-> ss[i].hi[1]])
-                  IN IsMilliV(res.sq[m]) /\ MilliIn(res.sq[m].v, [lo |-> <<lo, 1000 * tp>>, hi |-> <<hi, 1000 * tp>>])
+                  IN IsMilliV(res.sq[m]) /\ MilliIn(res.sq[m].v[1], [lo |-> <<lo, 1000 * tp>>, hi |-> <<hi, 1000 * tp>>])
              ELSE IsRatV(res.sq[m]) /\ Norm(res.sq[m].v) = Mean([i \in 1..tp |-> ScoresOf(m, shape, ps)[i].lo])
 
 \* sq_m_std: reported as the *variance* (std squared, exact rational) for exact metrics
 StdOK(res, im, shape, h, surv) ==
     LET tp == Cardinality(surv)  ps == SetToSeq(surv) IN
     \A m \in im :
-        IF tp = 0 THEN res.std[m] = EmptyStd(h)
+        IF tp = 0 THEN SameValue(res.std[m], EmptyStd(h))
         ELSE IF res.std[m].k = "skip" \/ m = "ASSD" THEN TRUE
         ELSE IsRatV(res.std[m]) /\ Norm(res.std[m].v) = Var([i \in 1..tp |-> ScoresOf(m, shape, ps)[i].lo])
 
@@ -352,10 +353,10 @@ BookStd(res, im) ==
 BookSqAssd(res, im) ==
     ("ASSD" \in im /\ res.tp > 0 /\ res.sq["ASSD"].k # "skip") =>
         LET xs == res.lists["ASSD"]
-            s  == SumInts([i \in 1..res.tp |-> xs[i].v])
+            s  == SumInts([i \in 1..res.tp |-> xs[i].v[1]])
         IN /\ IsMilliV(res.sq["ASSD"])
-           /\ res.sq["ASSD"].v * res.tp <= s + res.tp
-           /\ s <= (res.sq["ASSD"].v + 1) * res.tp + res.tp
+           /\ res.sq["ASSD"].v[1] * res.tp <= s + res.tp
+           /\ s <= (res.sq["ASSD"].v[1] + 1) * res.tp + res.tp
 PqMetrics == {"IOU", "DSC"}
 BookPq(res, im) ==
     \A m \in im \cap PqMetrics :
